@@ -41,6 +41,17 @@ def o1(tier):
             sy = [e for e in p.trace[im + 1:] if ev_is(e, 'sync_group_metadata_from_mls')]
             for e in sy:
                 ob.require(res_ok(ob, p, e) or f.short == 'return_own_commit', f'O1/{f.short}/resync-error-ignored', 'metadata sync failed but Ok returned', p)
+            # nothing may overwrite the re-synchronised record with an older copy: a save_group that follows the sync in the same function
+            # must save a record that was read from storage AFTER the sync (only then does it carry the new epoch / extension fields)
+            if sy:
+                isy = max(i for i, e in enumerate(p.trace) if ev_is(e, 'sync_group_metadata_from_mls'))
+                for j, e in enumerate(p.trace):
+                    if j > isy and ev_is(e, 'save_group') and not ev_is(e, 'save_group_exporter_secret'):
+                        reads = [r_ for k, r_ in enumerate(p.trace) if isy < k < j and (ev_is(r_, 'get_group') or ev_is(r_, 'find_group_by_mls_group_id'))]
+                        fresh = any(derived_from(ob.eng, p.st, a, r_) for r_ in reads for a in e.args[1:])
+                        ob.require(fresh, f'O1/{f.short}/stale-record-overwrites-sync',
+                                   f'{f.short}: after the stored record was re-synchronised with the MLS state, a group record that was loaded BEFORE the merge is saved over it '
+                                   '(stored epoch / extension fields fall back behind the MLS group)', p)
         ob.require(n >= 1, f'O1/{f.short}/vacuity', 'no successful merging path')
     ob.r.bounds = {'functions': sorted(f.short for f in fs), 'paths': 'all'}
     ob.r.vacuity.append(f'{total} paths over {len(fs)} merging functions')
@@ -130,6 +141,11 @@ def o5(tier):
     return r
 
 
+def o6(tier):
+    from props import memobs
+    return memobs.save_group_refusal(tier, 'O6', 'O6')
+
+
 def run(tier, seed, only=None):
-    obs = [('O1', o1), ('O2', o2), ('O3', o3), ('O4', o4), ('O5', o5)]
+    obs = [('O1', o1), ('O2', o2), ('O3', o3), ('O4', o4), ('O5', o5), ('O6', o6)]
     return [f(tier) for k, f in obs if not only or k in only]
